@@ -43,6 +43,13 @@ class C05(MergeFamProp):
         ]
 
     def gen_cases(self, rng, n, tier):
+        G.P_ODD = 0.2
+        try:
+            return self._gen_cases(rng, n, tier)
+        finally:
+            G.P_ODD = 0.0
+
+    def _gen_cases(self, rng, n, tier):
         out = []
         gen = list(super().gen_cases(rng, n, tier))
         # targeted family: operators addressing a key at depth 1 whose name is not a plain identifier / looks like a path
@@ -55,6 +62,7 @@ class C05(MergeFamProp):
             ks = keys_inside(c['docs'])
             c['wrap'] = [rng.choice(ks) for _ in range(rng.choice([1, 1, 2, 3]))]
             c['sib'] = [rng.choice(['zz', 'sib']), rng.choice([0, 'v', None])]
+            c['vseed'] = rng.randrange(1000)
             out.append(c)
         return out
 
@@ -71,6 +79,20 @@ class C05(MergeFamProp):
                 r['m'] = r['m'] + [[sk, S(sv) if i % 2 == 0 else Q([S(sv), S(i)])]]
             sdocs.append(dict(d, raw=r))
         io['sibling'] = impl_config(sdocs, self.WORLD, *st)
+        # consistent renaming of one key name everywhere (to a plain identifier that occurs nowhere)
+        names = [k for k in keys_inside(case['docs']) if k not in ('zz9',)]
+        odd = [k for k in names if not k.isidentifier()] or names
+        old = odd[case.get('vseed', 0) % len(odd)] if odd else None
+        io['renamed_key'] = old
+        if old is not None:
+            def ren(n):
+                m = dict(n)
+                if 'm' in m:
+                    m['m'] = [['zz9' if sc_py(k) == old else k, ren(c)] for k, c in m['m']]
+                elif 'q' in m:
+                    m['q'] = [ren(c) for c in m['q']]
+                return m
+            io['renamed'] = impl_config([dict(d, raw=ren(d['raw'])) for d in case['docs']], self.WORLD, *st)
         return io
 
     def oracle(self, case, io, ans):
@@ -96,6 +118,21 @@ class C05(MergeFamProp):
                 return f'unwrapped sequence fails ({base.get("err")}) but the wrapped one builds'
             if w.get('err') != base.get('err'):
                 return f'error class changed by wrapping: {base.get("err")} -> {w.get("err")}'
+        rn = io.get('renamed')
+        if rn is not None and not any((n.get('t') or {}).get('k') in ('xref', 'prev', 'eval') for d_ in case['docs'] for _, n in G.paths_of(d_['raw'])):
+            def back(v):
+                if isinstance(v, dict):
+                    if 'd' in v: return {'d': [[io['renamed_key'] if k == 'zz9' else k, back(x)] for k, x in v['d']]}
+                    return {k: back(x) for k, x in v.items()}
+                if isinstance(v, list): return [back(x) for x in v]
+                return v
+            if ('ok' in base) != ('ok' in rn):
+                if not (base.get('err') == 'merge' and 'notnew' in base) :
+                    return f'renaming the key {io["renamed_key"]!r} to a plain identifier everywhere changes the outcome: {base.get("err", "ok")} -> {rn.get("err", "ok")}'
+            elif 'ok' in base:
+                d = first_diff(strip_ids(base['ok']), back(strip_ids(rn['ok'])))
+                if d:
+                    return f'renaming the key {io["renamed_key"]!r} everywhere changes the merged content: ' + d
         if 'ok' in base and 'ok' in s:
             sk = case['sib'][0]
             bd = [kv for kv in strip_ids(base['ok'])['d'] if kv[0] != sk]
